@@ -426,6 +426,12 @@ fn new_session(rng: &mut Rng, kind: &'static str, npeers: usize, steps: usize, c
     let universe = u.changes.clone();
     let idx: HashMap<ChangeHash, usize> = universe.iter().enumerate().map(|(i, c)| (c.hash(), i)).collect();
     let mut docs = u.replicas;
+    // a peer that joins with an empty document (exercises the "peer has nothing" paths: whole-document
+    // messages, the reset of last_sent_heads / sent_hashes on empty heads)
+    if rng.chance(1, 5) {
+        let p = rng.below(docs.len() as u64) as usize;
+        docs[p] = AutoCommit::new_with_encoding(automerge::TextEncoding::UnicodeCodePoint).with_actor(gen::actor(rng, 8 + p));
+    }
     let mut orphan_src: Vec<Vec<ChangeHash>> = vec![vec![]; docs.len()];
     // some peers hold an orphan: a change of another peer whose dependencies they lack
     if orphans {
@@ -513,6 +519,9 @@ pub fn run(rng: &mut Rng, tier: &str, out: &str) -> Report {
         };
         if orphan_src.iter().any(|o| !o.is_empty()) {
             rep.count("sessions_with_orphans");
+        }
+        if (0..npeers).any(|p| s.docs[p].get_heads().is_empty()) {
+            rep.count("sessions_with_empty_peer");
         }
         let inis = initial(&mut s, &orphan_src);
         let start_sets: Vec<HashSet<ChangeHash>> = (0..npeers).map(|p| all_hashes(&mut s.docs[p])).collect();
@@ -708,6 +717,9 @@ pub fn run(rng: &mut Rng, tier: &str, out: &str) -> Report {
         rep.add("messages", s.messages as u64);
         rep.add("carried_changes", s.carried as u64);
         rep.add("reset_messages", s.resets as u64);
+        if s.resets > 0 {
+            rep.add(&format!("reset_messages_{}", kind), s.resets as u64);
+        }
         rep.add("bloom_false_positive_hits", s.fp_hits as u64);
         rep.add("whole_document_messages", s.whole_doc as u64);
         rep.add("read_only_receives", s.ro_receives as u64);
